@@ -85,9 +85,6 @@ Definition rate_regime (labels : list Z) (ids : option (list Z)) (bin : Q) (dur 
 (* every entry of the exact result is a float64 (so the float computation is exact) *)
 Definition exact_f64 (x : Q) : bool := dyadic 53 900 x.
 
-Definition eff_dur (dur : option Q) : Q :=
-  match dur with None => 1%Q | Some d => if Qeq_bool d 0 then 1%Q else d end.
-
 Definition check (c : case) : list Z :=
   match cin c, cobs c with
   | InCCG t labels ids rate bin win symm, o =>
